@@ -3,11 +3,13 @@
    endpoints with an adversary action applied by the driver's relay.
      reset(attack, cp, prologue)  cp = "peer": A's counterpart on the wire is B (bytes only tampered
                                   with); cp = "M": both A and B talk to an endpoint run by M with M's keys
-     hs(side, res, peer)          side in {A, B, Ma, Mb}; res = done | err | pending; peer = name of the
+     hs(side, res, peer)          side in {A, B, Ma, Mb, Mx}; res = done | err | pending; peer = name of the
                                   identity the side reports (A, B, M, other)
      link(side, ok)               bytes written by `side` after the handshake decrypt at its counterpart
    Statement: a side that completes reports exactly the party it ran the key exchange with: with byte
    tampering only that can be nobody but the honest peer; with M terminating the handshakes it is M.
+   With an identity splice (attack = splice: M keeps its own static key but sends X's identity key and/or a
+   signature that is not M's signature over M's static key) the victim either fails or reports M, never X.
    A handshake never stays pending after EOF.  Differing prologues: nobody completes.  Without any
    attack both complete and the transport keys match (anti-vacuity). *)
 EXTENDS TraceIO
@@ -21,7 +23,7 @@ Counterpart(side) == IF side = "A" THEN (IF cp = "M" THEN "M" ELSE "B")
 Reset == R.e = "reset" /\ attack' = R.attack /\ cp' = R.cp /\ prologue' = R.prologue /\ dn' = {}
 Hs == /\ R.e = "hs"
       /\ R.res \in {"done", "err"}                                  \* never pending after EOF
-      /\ (R.res = "done" => R.peer = Counterpart(R.side))           \* exactly the remote identity
+      /\ (R.res = "done" /\ R.side # "Mx" => R.peer = Counterpart(R.side))   \* exactly the remote identity (Mx = adversary's own endpoint)
       /\ (R.res = "done" => prologue = "same")                      \* prologue mismatch fails
       /\ (attack \in {"none", "mitm"} => R.res = "done")            \* untampered bytes: must complete
       /\ dn' = IF R.res = "done" THEN dn \cup {R.side} ELSE dn
